@@ -79,6 +79,7 @@ type Exec struct {
 	eng       *Engine
 	vc        *VC
 	top       *ssa.Function
+	scope     string // package whose interface contracts apply (lemmas: the lemma's package)
 	topC      *FuncContract
 	safety    bool
 	ovfCheck  bool
